@@ -340,3 +340,14 @@ impl<T: Transport> Session<T> {
             .map(|fut| async move { fut.await.map(|()| drop(self)) })
     }
 }
+
+#[cfg(bgpfu_verif)]
+impl<T: Transport> Session<T> {
+    /// Verification hook: establish a session over an arbitrary [`Transport`] implementation.
+    ///
+    /// Only compiled with `--cfg bgpfu_verif`.
+    #[allow(clippy::missing_errors_doc)]
+    pub async fn verif_with_transport(transport: T) -> Result<Self, Error> {
+        Self::new(transport).await
+    }
+}
